@@ -556,8 +556,22 @@ def install(fs):
         fs.write(dst, fs.files[src], what="copy")
         return dst
 
+    def make_archive(base_name, format="zip", root_dir=None, base_dir=None, **k):
+        """shutil.make_archive(format='zip'): opens <base_name>.zip for writing *at its final place* (truncating what is
+        there), adds the files below root_dir one by one and closes the archive also when a write fails"""
+        if format != "zip":
+            raise NotImplementedError(format)
+        target = str(base_name) + ".zip"
+        root = _p(root_dir)
+        with _Zip(fs, target, "w") as zf:
+            for dirpath, _dirs, filenames in fs.walk(root):
+                for fn in filenames:
+                    full = _p(dirpath) + P((fn,))
+                    zf.write(full, arcname=P(full[len(root):]))
+        return target
+
     shutil_ = types.SimpleNamespace(rmtree=fs.rmtree, move=fs.replace, copytree=copytree, copyfile=copyfile, copy=copyfile,
-                                    copy2=copyfile)
+                                    copy2=copyfile, make_archive=make_archive)
     tempfile_ = types.SimpleNamespace(TemporaryDirectory=lambda *a, **k: _TmpDir(fs), mkdtemp=fs.mkdtemp,
                                       mkstemp=fs.mkstemp)
 
